@@ -5,7 +5,7 @@ def hx(bs):
     return "".join("%02x" % b for b in bs) if bs else "-"
 
 BOUND = [0x00, 0x01, 0x02, 0x1f, 0x20, 0xde, 0xdf, 0xe0, 0xe1, 0xfe, 0xff]
-MAXLEN = {0: 255, 1: 255, 2: 223, 3: 223}
+MAXLEN = {0: 255, 1: 255, 2: 223, 3: 223, 4: 255}
 
 class C01(DiffProperty):
     pid = "C01"
@@ -39,8 +39,8 @@ class C01(DiffProperty):
                   "the concatenation of their frames; tied to the code on every run by differential execution of the extracted model against an "
                   "ASan/UBSan build (per-call state and window bytes compared) and by decoding the implementation's frames with its own decoder")
     level_note = ("trusted: Coq kernel; hand transcription of the encoders (validated by the correspondence run); extraction + OCaml driver; harness. "
-                  "Not covered by a theorem: the zero-terminated command-text framing (5th framing of the property) and mpt_array_push itself; "
-                  "they are named as open in DESIGN.md. All theorems closed under the global context.")
+                  "The command-text framing has its own theorems (C01_text_encoder_roundtrip, C01_text_decoder_delivers: encoder for all splits/capacities, decoder for a whole text in one fragment); "
+                  "multi-fragment/multi-call command decoding and mpt_array_push itself are correspondence-only. All theorems closed under the global context.")
     technique = "Coq invariant proof over the resumable encoder (all splits, all capacity schedules) + differential correspondence check"
 
     def project(self, tok):
@@ -167,10 +167,12 @@ class C01(DiffProperty):
         nm = 1500 if tier == "quick" else 40000
         scheds = ["1", "1", "2", "3,1", "64", "64", "7", "200", "1,1,5"]
         for i in range(nm):
-            v = i % 4
+            v = i % 5
             ops = []
             for _ in range(rng.choice([1, 1, 2, 3])):
                 m = self.gen_msg(rng, v)
+                if v == 4 and rng.random() < 0.85:
+                    m = [b or 0x20 for b in m]     # command text admits no zero byte (15% keep zeros: must be refused)
                 for part in self.gen_splits(rng, m):
                     ops += ["pushall", rng.choice(scheds), hx(part)]
                 ops += ["termall", rng.choice(scheds)]
@@ -194,7 +196,7 @@ class C01(DiffProperty):
         # raw single calls with chosen capacities: exact fit, one short, rollback positions
         nr = 1500 if tier == "quick" else 30000
         for i in range(nr):
-            v = i % 4
+            v = i % 5
             ml = MAXLEN[v]
             ops = []
             cap = 0
@@ -215,7 +217,7 @@ class C01(DiffProperty):
         L = 3 if tier == "quick" else 4
         alpha = [0x00, 0x01, 0x02, 0xdf, 0xe0, 0xff]
         import itertools
-        for v in range(4):
+        for v in range(5):
             for n in range(0, L + 1):
                 for m in itertools.product(alpha, repeat=n):
                     m = list(m)
